@@ -13,7 +13,9 @@ The invariant is exactly what the two historical hangs violated: a positive
 branch could consume nothing and never complete.  (The chunked decoder has its own loop,
 `Px.Chunk.loop`; its fuel lemma is `Px.Chunk.loop_fuel` in `PxProofs/ChunkLemmas.lean`, C03.)
 -/
-namespace Px.Parser
+namespace Px.ParseFuel
+
+open Px.Parser
 
 /-- `loop` with a flag: `true` = stopped because `more` was false or the state COMPLETE,
     `false` = stopped only because the fuel ran out -/
@@ -664,4 +666,4 @@ def errIs {α : Type} (r : Except Err α) (e : Err) : Bool :=
   | .ok _ => false
   | .error e' => e' == e
 
-end Px.Parser
+end Px.ParseFuel
